@@ -36,7 +36,7 @@ def with_hydrogens_text(name):
     conf = base.conformations['1A']
     for i, a in enumerate(conf.atoms):
         lines.append(H.pdb_line(i + 1, a.name, a.res_name.strip(), a.chain_id, a.res_num, a.x, a.y, a.z, element=a.element))
-    return ''.join(lines) + 'TER\n'
+    return ''.join(lines) + 'TER   \n'
 
 
 _CACHE = {}
